@@ -113,8 +113,7 @@ Definition dispatch (kind : string) (args : list string) : string :=
         match bytes_of_tok ip, N_of_dec seed with
         | Some ip, Some seed =>
             verdict "arp-request" (send_purge_arp c ip (poison seed))
-              (wf_arp hm eth_bcast 1 hm (host_ip4 c) eth_bcast ip)
-              [("arpreq-hlen-plen-in-ether-header", known_arpreq_hdr hm eth_bcast 1 hm (host_ip4 c) eth_bcast ip)]
+              (wf_arp hm eth_bcast 1 hm (host_ip4 c) eth_bcast ip) []
         | _, _ => BADARGS
         end
       | _ => BADARGS
@@ -161,9 +160,7 @@ Definition dispatch (kind : string) (args : list string) : string :=
       | [seed] =>
         match N_of_dec seed with
         | Some seed =>
-            verdict "rs" (send_rs c (poison seed)) (wf_rs hm (as16 (host_lla c)))
-              [("rs-without-icmp6-header-to-ff02-1", known_rs_noheader (a_ip ip6_all_nodes_addr) hm (as16 (host_lla c)));
-               ("rs-without-icmp6-header", known_rs_noheader all_routers6 hm (as16 (host_lla c)))]
+            verdict "rs" (send_rs c (poison seed)) (wf_rs hm (as16 (host_lla c))) []
         | None => BADARGS
         end
       | _ => BADARGS
@@ -174,8 +171,7 @@ Definition dispatch (kind : string) (args : list string) : string :=
         match all_bytes [dm; di], rdnss_of_tok rd, prefixes_of_tok pf, N_of_dec seed with
         | Some [dm; di], Some rd, Some pf, Some seed =>
             verdict "ra" (send_ra c pf rd (dm, di) (poison seed))
-              (wf_ra hm (as16 (host_lla c)) (mtu c) pf rd dm di)
-              [("ra-without-icmp6-header", known_ra_noheader hm (as16 (host_lla c)) (mtu c) pf rd dm di)]
+              (wf_ra hm (as16 (host_lla c)) (mtu c) pf rd dm di) []
         | _, _, _, _ => BADARGS
         end
       | _ => BADARGS
